@@ -87,6 +87,28 @@ func (g *Gen) KnownPrograms(startPID, per int) []*ps.Program {
 			g.order(p)
 			add(p, "names", "names")
 		}
+		// aiorder: NEW finding — -auto-instrument skips tasks listed before
+		// cff.InstrumentFlow.
+		{
+			p := g.flowWhere(pid, func(p *ps.Program) bool { return true })
+			if p.Emitters == 0 {
+				p.Emitters = 1
+			}
+			p.InstrDir, p.AutoInstr = true, true
+			for _, t := range p.Tasks {
+				t.Instr = false
+			}
+			g.order(p)
+			// move InstrumentFlow to the end of the listing
+			var toks []string
+			for _, tk := range p.Order {
+				if tk != "instr" {
+					toks = append(toks, tk)
+				}
+			}
+			p.Order = append(toks, "instr")
+			add(p, "aiorder", "")
+		}
 		// notask: NEW finding — a flow without tasks is accepted.
 		{
 			p := &ps.Program{Kind: "flow", Mode: "base", Wrap: i%2 == 0}
